@@ -184,6 +184,12 @@ def r3_prefilter(cx):
             consts = [const_str(e) for e in lst.elts]
             cx.require("-F" in consts and not any(c in ("-E", "-P", "-G", "-e=") for c in consts if c), lst,
                        "grep runs with -F (fixed strings: regex metacharacters in filters are literal)", construct=short(lst, 140))
+            # the pre-filter may only drop lines no filter matches: every option that limits or inverts the selection (-m/--max-count, -v, -x, -w, -i, -c, -l, -o ...)
+            # changes which matching lines survive (grep -m keeps the FIRST matches, the budgets are spent from the bottom)
+            opts = [c for c in consts if c and c.startswith("-") and c != "--"]
+            dyn_opts = [e for i_, e in enumerate(lst.elts[1:], 1) if consts[i_] is None and not (isinstance(e, ast.Call) and call_attr(e) == "join") and U(e) != "self.path"]
+            cx.require(set(opts) <= set(["-F", "-e"]) and not dyn_opts, lst, "grep gets no option besides -F and -e (nothing that limits, inverts or reshapes the selection)",
+                       construct="options %s%s" % (opts, " + computed arguments %s" % [short(e, 40) for e in dyn_opts] if dyn_opts else ""))
             pat_idx = [i for i, e in enumerate(lst.elts) if isinstance(e, ast.Call) and call_attr(e) == "join" and "self._filters" in U(e)]
             if not pat_idx:
                 cx.unknown(lst, "cannot find the joined pattern argument")
@@ -267,8 +273,9 @@ def r6_gating(cx):
         cx.bad(ld, "TextFileProvider.load post-filters content during analysis (AllowFilter.filter_content)", construct="(no filter_content call)")
     for x in fc:
         g = guard_texts(x)
-        ok = (host, False) in g and ("self._filters", True) in g and U(x.args[1]) == "self._filters"
-        cx.require(ok, x, "post-filtering runs exactly when not on a host and filters exist, with the provider's filter table")
+        ok = g - set([("args", False)]) == set([(host, False), ("self._filters", True)]) and U(x.args[1]) == "self._filters"      # 'if args: return <command output>' comes first
+        cx.require(ok, x, "post-filtering runs exactly when not on a host and filters exist (no further switch), with the provider's filter table",
+                   construct="filter_content guarded by %s" % sorted(g))
         a = stmt_of(x)
         cx.require(isinstance(a, ast.Assign) and U(a.targets[0]) == U(x.args[0]), a, "the filtered result replaces the content that is returned")
     ca = sf.func("TextFileProvider.create_args", "C07.R6")
